@@ -199,6 +199,11 @@ func (g *ProgGen) callOf(f fnInfo, depth int) gast.Expr {
 
 func (g *ProgGen) block(depth, n int) []gast.Stmt {
 	var out []gast.Stmt
+	if n > 0 && depth < g.MaxDepth && g.R.Intn(8) == 0 {
+		// an empty block is a block too: `if (c) { }`, `else { }`, `case 1 { }`
+		// (not the program itself: running an empty program is a deliberate error)
+		return out
+	}
 	for i := 0; i < n; i++ {
 		out = append(out, g.stmt(depth)...)
 	}
